@@ -490,7 +490,11 @@ func generateReceiveMethod(file *jen.File, itf *idl.InterfaceType) error {
 
 	prelude := jen.Comment("action dispatch")
 	if itf.Name == "Object" {
-		prelude = jen.Id(`from = p.impl.Tracer(msg, from)`)
+		prelude = jen.Id(`// only call and post messages run a method
+	if msg.Header.Type != net.Call && msg.Header.Type != net.Post {
+		return nil
+	}
+	from = p.impl.Tracer(msg, from)`)
 	}
 
 	method := func(m object.MetaMethod, methodName string) error {
